@@ -43,7 +43,7 @@ def to_sched(sid, hist):
             last = ents[-1]["i"]
             ops.append({"op": "RaftAppend", "g": 1, "ents": ents})
         elif o == "RaftHS":
-            ops.append({"op": "RaftHS", "g": 1, "term": h["term"], "vote": 1, "commit": last})
+            ops.append({"op": "RaftHS", "g": 1, "term": h["term"], "vote": 1, "commit": h.get("commit", 0)})
         elif o == "RaftCompact":
             ops.append({"op": "RaftCompact", "g": 1, "idx": h["idx"]})
         elif o in ("Rotate", "Flush", "Watchdog"):
